@@ -253,6 +253,9 @@ pub struct ConcCfg {
     pub schedule: Option<Vec<u8>>,
     /// yield at SimFS call boundaries too (needed where the backend is not MemoryFS)
     pub sched_fs: bool,
+    /// calls made one after the other before the threads start (earlier, finished history)
+    #[serde(default)]
+    pub setup: Vec<Op>,
 }
 
 pub struct ConcRun {
@@ -264,6 +267,8 @@ pub struct ConcRun {
     pub preemptions: u64,
     pub labels: Vec<&'static str>,
     pub post_ok: Result<(), String>,
+    /// calls recorded at every layer while the threads ran (property C08 only)
+    pub log: Vec<crate::simfs::Rec>,
 }
 
 fn universe_of(cfg: &ConcCfg) -> BTreeSet<String> {
@@ -306,6 +311,16 @@ fn snap_desc(root: &vfs::VfsPath, uni: &BTreeSet<String>) -> (u64, String) {
 pub fn run_schedule(cfg: &ConcCfg, sched_seed: u64, pct: Option<usize>, replay: Option<Vec<u8>>) -> Result<ConcRun, String> {
     install_hook();
     let built = build(&cfg.spec, 7, false)?;
+    if !cfg.setup.is_empty() {
+        let mut ex = Exec::new(vec![built.root.clone()]);
+        for op in &cfg.setup {
+            let _ = ex.exec(op);
+        }
+    }
+    if cfg.property == "C08" {
+        built.ctl.take_log();
+        built.ctl.set_rec(true);
+    }
     let n = cfg.program.len();
     let sched = Sched::new(n, sched_seed, pct, replay);
     if cfg.sched_fs {
@@ -363,6 +378,8 @@ pub fn run_schedule(cfg: &ConcCfg, sched_seed: u64, pct: Option<usize>, replay: 
         POOL.with(|p| p.borrow_mut().clear());
     }
     built.ctl.sched_on.store(false, std::sync::atomic::Ordering::SeqCst);
+    built.ctl.set_rec(false);
+    let log = built.ctl.take_log();
     let (decisions, preemptions, labels) = {
         let st = sched.m.lock().unwrap();
         (st.decisions.clone(), st.preemptions, st.labels.clone())
@@ -391,7 +408,7 @@ pub fn run_schedule(cfg: &ConcCfg, sched_seed: u64, pct: Option<usize>, replay: 
     }
     // after an abort the abandoned threads run uncontrolled: their results are not part of the run
     let r = if aborted.is_some() { vec![vec![]; n] } else { results.lock().unwrap().clone() };
-    Ok(ConcRun { results: r, final_hash, final_desc, decisions, abort: aborted, preemptions, labels, post_ok })
+    Ok(ConcRun { results: r, final_hash, final_desc, decisions, abort: aborted, preemptions, labels, post_ok, log })
 }
 
 fn results_hash(results: &[Vec<Res>], final_hash: u64) -> u64 {
